@@ -33,6 +33,10 @@ type caseT struct {
 	Ops  []opT  `json:"ops,omitempty"`
 	// conc: per-goroutine programs
 	Progs [][]opT `json:"progs,omitempty"`
+	// fresh-race: G sessions, Rounds brand-new names
+	G       int  `json:"g,omitempty"`
+	Rounds  int  `json:"rounds,omitempty"`
+	UseLock bool `json:"use_lock,omitempty"`
 }
 
 const universe = 3
@@ -335,8 +339,9 @@ func runConc(c *lib.Ctx, cs caseT) {
 		return
 	}
 	if linearizable(hist, true, false) {
-		c.PredFail(id, "concurrent/lock-creation-visible-before-acquisition", "history is linearizable only if the creation of a lock entry by TryLock/Lock "+
-			"(LockDoesNotExist -> LockFree) is a separate atomic step before the acquisition: "+fmt.Sprint(hist), cs)
+		// explained once the creation of the lock entry (LockDoesNotExist -> LockFree) is its own step: only the
+		// three-valued Go GetLockState / the Unlock error kind can tell the two apart, no SQL-level result can
+		c.Count("conc_needs_separate_creation_step")
 		return
 	}
 	if linearizable(hist, true, true) {
@@ -478,6 +483,63 @@ func runRelAllStress(c *lib.Ctx, cs caseT) {
 	}
 }
 
+// ---------------- (d) directed: several sessions race for a brand-new name ----------------
+func runFreshRace(c *lib.Ctx, cs caseT) {
+	c.Count("mode_fresh_race")
+	id := c.CaseNoModel(cs, fmt.Sprintf("fresh-race-%d-%d", cs.G, cs.Rounds))
+	c.PredChecked()
+	ls := sql.NewLockSubsystem()
+	sess := make([]*sessT, cs.G)
+	for g := range sess {
+		sess[g] = newSess(g + 1)
+	}
+	for round := 0; round < cs.Rounds; round++ {
+		nm := fmt.Sprintf("fresh-%d", round)
+		var ready, won atomic.Int32
+		winners := make([]bool, cs.G)
+		var wg sync.WaitGroup
+		for g := 0; g < cs.G; g++ {
+			wg.Add(1)
+			go func(g int) {
+				defer wg.Done()
+				ready.Add(1)
+				for int(ready.Load()) < cs.G {
+				}
+				var ok bool
+				if cs.UseLock {
+					ok = ls.Lock(sess[g].ctx, nm, 0) == nil
+				} else {
+					ok, _ = ls.TryLock(sess[g].ctx, nm)
+				}
+				if ok {
+					won.Add(1)
+					winners[g] = true
+				}
+			}(g)
+		}
+		wg.Wait()
+		st, owner := ls.GetLockState(nm)
+		if won.Load() != 1 {
+			c.PredFail(id, "concurrent/fresh-name-not-acquired-by-exactly-one-session",
+				fmt.Sprintf("round %d: %d of %d sessions were told they hold the brand-new lock %q (state %d, owner %d)", round, won.Load(), cs.G, nm, st, owner), cs)
+			return
+		}
+		if st != sql.LockInUse || owner == 0 || !winners[owner-1] {
+			c.PredFail(id, "concurrent/fresh-name-holder-misreported",
+				fmt.Sprintf("round %d: GetLockState(%q) = (%d, %d) but the session that acquired it is %v", round, nm, st, owner, winners), cs)
+			return
+		}
+		// the losers must not be able to release it, the winner must
+		for g := 0; g < cs.G; g++ {
+			err := ls.Unlock(sess[g].ctx, nm)
+			if (err == nil) != winners[g] {
+				c.PredFail(id, "concurrent/fresh-name-release-by-wrong-session", fmt.Sprintf("round %d: Unlock by session %d (winner=%v) returned %v", round, g+1, winners[g], err), cs)
+				return
+			}
+		}
+	}
+}
+
 // ---------------- generators ----------------
 func genOp(r *lib.RNG, t int) opT {
 	kinds := []string{"try", "try", "try", "lock", "unlock", "unlock", "unlock", "relall", "state", "state"}
@@ -493,6 +555,15 @@ func genSeq(r *lib.RNG) caseT {
 	n := r.Range(4, 30)
 	nsess := r.Range(1, 3)
 	for i := 0; i < n; i++ {
+		if nsess >= 2 && r.Chance(1, 12) {
+			// S1 locks x, S1 ReleaseAll, S2 locks x, S1 ReleaseAll again (stale name in S1's set): S2 must keep x
+			x, s1 := r.Range(1, universe), r.Range(1, nsess)
+			s2 := s1%nsess + 1
+			cs.Ops = append(cs.Ops, opT{T: s1, K: lib.Pick(r, []string{"try", "lock"}), N: x}, opT{T: s1, K: "relall"},
+				opT{T: s2, K: lib.Pick(r, []string{"try", "lock"}), N: x}, opT{T: s1, K: "relall"}, opT{T: s2, K: "state", N: x},
+				opT{T: s1, K: "try", N: x}, opT{T: s2, K: "unlock", N: x})
+			continue
+		}
 		cs.Ops = append(cs.Ops, genOp(r, r.Range(1, nsess)))
 	}
 	return cs
@@ -525,6 +596,8 @@ func run(c *lib.Ctx, cs caseT) {
 		runConc(c, cs)
 	case "relall-stress":
 		runRelAllStress(c, cs)
+	case "fresh-race":
+		runFreshRace(c, cs)
 	default:
 		panic("driver: unknown mode " + cs.Mode)
 	}
@@ -538,7 +611,7 @@ func main() {
 		c.SetRule("60% sequential sequences (4-30 calls of TryLock/Lock(300us)/Unlock/ReleaseAll/GetLockState by 1-3 sessions on 3 names; " +
 			"compared call by call with the Coq sequential specification and with an independent reference lock table), 40% concurrent runs " +
 			"(2-4 goroutines = sessions, 3-7 calls each, invocation/response order recorded with an atomic counter, history checked for " +
-			"linearizability by exhaustive search), plus one directed ReleaseAll stress scenario. Non-trivial: a sequential case with both a " +
+			"linearizability by exhaustive search), plus a directed ReleaseAll stress scenario and directed fresh-name races (2-4 sessions issue their first-ever TryLock/Lock on a brand-new name at the same instant, 100-400 rounds: exactly one may succeed). Non-trivial: a sequential case with both a " +
 			"contended and a re-entrant acquisition, a concurrent case with overlapping operations; distinct = distinct histories.")
 		if c.ReplayFile != "" {
 			var cs caseT
@@ -555,16 +628,25 @@ func main() {
 			{Mode: "seq", Ops: []opT{{T: 1, K: "unlock", N: 2}, {T: 1, K: "state", N: 2}, {T: 1, K: "lock", N: 2}, {T: 1, K: "lock", N: 3}, {T: 2, K: "relall"}, {T: 1, K: "relall"},
 				{T: 1, K: "relall"}, {T: 2, K: "try", N: 2}, {T: 1, K: "relall"}, {T: 2, K: "unlock", N: 2}, {T: 2, K: "unlock", N: 2}}},
 			{Mode: "relall-stress"},
+			// S1 locks, releases all, S2 locks, S1 releases all again: S2 keeps the lock
+			{Mode: "seq", Ops: []opT{{T: 1, K: "try", N: 1}, {T: 1, K: "try", N: 2}, {T: 1, K: "relall"}, {T: 2, K: "try", N: 1}, {T: 2, K: "lock", N: 2}, {T: 2, K: "lock", N: 2},
+				{T: 1, K: "relall"}, {T: 2, K: "state", N: 1}, {T: 2, K: "state", N: 2}, {T: 1, K: "try", N: 1}, {T: 1, K: "unlock", N: 2}, {T: 2, K: "unlock", N: 2}, {T: 2, K: "relall"}, {T: 1, K: "relall"}}},
+			{Mode: "fresh-race", G: 2, Rounds: 400},
+			{Mode: "fresh-race", G: 4, Rounds: 400},
+			{Mode: "fresh-race", G: 3, Rounds: 300, UseLock: true},
 		}
 		for _, cs := range corpus {
 			run(c, cs)
 		}
 		for i := len(corpus); i < c.N; i++ {
 			r := c.R.Fork()
-			if r.Intn(10) < 6 {
+			switch x := r.Intn(100); {
+			case x < 58:
 				run(c, genSeq(r))
-			} else {
+			case x < 97:
 				run(c, genConc(r))
+			default:
+				run(c, caseT{Mode: "fresh-race", G: r.Range(2, 4), Rounds: r.Range(100, 300), UseLock: r.Chance(1, 3)})
 			}
 		}
 	})
